@@ -95,8 +95,9 @@ Definition should_put (o : wopts) (ii : iidx) (c : bytes) (p : cidp) : res bool 
   else if w_maxcid o <? blen c then Err ECidTooLarge
   else if negb (w_dups o) then
     if w_whole o then Ok (negb (ii_has_exact_cid c (c_digest p) ii))
-    else (* InsertionIndex.Get: any record with that digest, whatever its hash code *)
-      Ok (match ii_with_digest (c_digest p) ii with [] => true | _ => false end)
+    else (* InsertionIndex.HasMultihash (repaired: was Get = any record with that digest,
+            whatever its hash code; notes/fixes/C04-dedup-by-multihash.patch) *)
+      Ok (negb (ii_has_multihash (c_mhcode p) (c_digest p) ii))
   else Ok true.
 
 Definition store_has (o : wopts) (ii : iidx) (c : bytes) (p : cidp) : bool :=
@@ -342,10 +343,11 @@ Definition bs_finalize (s : wstate) : wstate * out :=
 
 Definition bs_discard (s : wstate) : wstate * out := (set_flags s true (ws_finalized s), ONil).
 
-(* StorageCar.Finalize *)
+(* StorageCar.Finalize (repaired: the CARv1 branch used to return without closing;
+   notes/fixes/C04-storage-v1-finalize-closes.patch) *)
 Definition st_finalize (s : wstate) : wstate * out :=
-  if w_v1 (ws_opts s) then (s, ONil)
-  else if ws_closed s then (s, OErr EOther)
+  if ws_closed s then (s, OErr EOther)
+  else if w_v1 (ws_opts s) then (set_flags s true (ws_finalized s), ONil)
   else store_finalize (set_flags s true (ws_finalized s)).
 
 (* ---- Resume ------------------------------------------------------------------------------------ *)
